@@ -11,7 +11,7 @@ UNITS = [
     T.RKstep(), T.Clip(), T.RK4avg(), T.EF(), T.RK2(), T.RK4(), G.Metric(),
     T.Update("EF"), T.Update("RK2"), T.Update("RK4"),
     A.GetVelocity1(), A.GetVelocity2(), A.GetVelocity4(),
-]
+] + list(T.TRACKER_INIT_UNITS)
 _s = z3.Real("s")
 LEMMAS = [
     L.ButcherOrder("EF", T.TABLEAUX["EF"]),
@@ -21,6 +21,7 @@ LEMMAS = [
     L.ClipIdentityInside(),
 ]
 NATIVE = [
+    dict(name="histories of tracking steps (consecutive updates, same-count replacement, release) on a grid with cell-wise metric and depth: every update equals the scheme applied to the state before it", harness="tracker_history_bounded", kind="bounded"),
     dict(name="observed convergence order of the real schemes and analytic helpers", harness="scheme_order", kind="bounded",
          bound="8/16/32 steps over 4 h, time-dependent rotation; EF/RK2/RK4 + get_velocity1/2(s=1,1/2,2/3)/4"),
     dict(name="encoder validation: the interpreter in concrete mode vs the real numpy/numba functions", harness="validate_encoder", kind="validation", prepare="pyvc.validate:run_validation")]
